@@ -57,10 +57,12 @@ def make_overlay(ctx, tree, cfg, dst):
     return dst
 
 
-def parse_all(overlay, names):
+def parse_all(overlay, names, compile_=False):
+    """-d: parse, resolve includes and variables, dump; without it the policy is also compiled (rules merged, x-modifier
+    conflicts found), which takes about a minute per configuration on 16 cores"""
     def one(n):
         p = os.path.join(overlay, n)
-        q = subprocess.run(['apparmor_parser', '-Q', '-K', '-d', '-b', overlay, '-I', overlay, p], stdout=subprocess.DEVNULL, stderr=subprocess.PIPE, timeout=120)
+        q = subprocess.run(['apparmor_parser', '-Q', '-K'] + ([] if compile_ else ['-d']) + ['-b', overlay, '-I', overlay, p], stdout=subprocess.DEVNULL, stderr=subprocess.PIPE, timeout=900)
         return n, q.returncode, q.stderr.decode('utf-8', 'replace')[-400:]
     with ThreadPoolExecutor(max_workers=16) as ex:
         return list(ex.map(one, names))
@@ -80,6 +82,15 @@ def run(ctx):
         cfgs += [extra[(ctx.seed * 7 + 3) % len(extra)]]
     else:
         cfgs = lib.all_cfgs()
+    # full compile (rules merge without conflict): one --full configuration in the quick tier, six configurations in the thorough tier
+    fulls = [c for c in cfgs if c.full]
+    if ctx.tier == 'quick':
+        compiled = {fulls[ctx.seed % len(fulls)].name()} if fulls else set()
+    else:
+        pick = [lib.Cfg('arch', 4, '4.1', 'none', True), lib.Cfg('debian', 3, '3.0', 'enforce', True), lib.Cfg('ubuntu', 4, '4.0', 'complain', False),
+                lib.Cfg('opensuse', 3, '3.0', 'none', False), lib.Cfg('whonix', 4, '4.0', 'none', True), lib.Cfg('ubuntu', 3, '4.1', 'none', True)]
+        compiled = {c.name() for c in pick}
+    ncompiled = 0
     total = nrej = 0
     for cfg in cfgs:
         tree, out, rc = lib.real_build(ctx, cfg)
@@ -97,6 +108,20 @@ def run(ctx):
                 if re.search(r'(?m)^  (userns,|mqueue)', t) or 'abi/4.0' in t:
                     ctx.violation('%s: %s still holds an AppArmor-4 rule or declaration in an ABI 3 build' % (cfg.name(), n), {'config': cfg.name(), 'file': n})
         res = parse_all(overlay, names)
+        if cfg.name() in compiled:
+            cnames = names
+            if ctx.tier == 'quick':
+                # the profiles where text from several sources meets (full-system-policy profiles, hosts of stacked profiles),
+                # plus a sample of the others drawn from the seed; the thorough tier compiles every file
+                fulld = os.path.join(lib.REPO, 'apparmor.d', 'groups', '_full')
+                sure = {n for n in names if os.path.exists(os.path.join(fulld, n)) or
+                        '# Stacked profile' in open(os.path.join(build, n), encoding='utf-8', errors='replace').read()}
+                rest = [n for n in names if n not in sure]
+                cnames = sorted(sure | set(ctx.rng.sample(rest, min(len(rest), 160))))
+            cres = parse_all(overlay, cnames, compile_=True)
+            ncompiled += len(cres)
+            ok_d = {n for n, rcp, _ in res if rcp == 0}
+            res += [(n, rcp, err) for n, rcp, err in cres if rcp != 0 and n in ok_d]
         total += len(res)
         for n, rcp, err in res:
             if rcp != 0:
@@ -108,7 +133,8 @@ def run(ctx):
         shutil.rmtree(overlay, ignore_errors=True)
     ctx.count_distinct([c.name() for c in cfgs])
     ctx.cov['evaluations'] += total
-    ctx.cov['search']['reference_parser'] = {'configs': len(cfgs), 'files_parsed': total, 'rejected': nrej}
+    ctx.cov['search']['reference_parser'] = {'configs': len(cfgs), 'files_parsed': total, 'rejected': nrej,
+                                             'configs_fully_compiled': sorted(compiled), 'files_fully_compiled': ncompiled}
     ctx.sample({'configs': [c.name() for c in cfgs]})
     ctx.cov['rule'] = ('for each configuration of the tier: real prebuild, output overlaid on a copy of the installed reference policy, every '
                        'top-level file of the output policy directory loaded with apparmor_parser -Q -K -d (abstractions, tunables and mappings '
@@ -119,7 +145,8 @@ def run(ctx):
     ctx.assumptions += ['apparmor_parser 3.0.8 stands for the reference parser; for ABI 4 the AppArmor-4-only rule kinds are commented out in the '
                         'overlay copy and abi/4.0 is a copy of abi/3.0, as the property sets them aside',
                         'for version 4.1 the four files dropped as "upstreamed in 4.1" are taken from the source tree (the installed policy is 3.0.8)',
-                        '-d stops after parsing and merging; the DFA compile (-Q -K without -d) is not run in the quick tier']
+                        '-d stops after parsing, include and variable resolution; the compile that merges rules and finds x-modifier conflicts (-Q -K without -d) '
+                        'is run on one --full configuration in the quick tier and on six configurations in the thorough tier']
 
 
 def replay(ctx, data):
